@@ -5,6 +5,9 @@ import (
 	"math/rand"
 	"net/http"
 	"strings"
+	"sync"
+	"sync/atomic"
+	"time"
 
 	"github.com/vicanso/pike/config"
 	"github.com/vicanso/pike/location"
@@ -134,7 +137,7 @@ func c14Check(r *hx.Run, locs []locSpec, names []string, host, uri string, ls *l
 }
 
 func c14(r *hx.Run) {
-	r.Rule = "exhaustive: every ordered tuple of <=3 location shapes (host subset of {h1,h2} x prefix subset of {/a,/a/b,/b}) x every subset of the location names x 15 queries ({h1,h2,h3} x {/a/x,/a/b/x,/b,/c,/}); sampled tuples of 4; random larger universes (prefix lengths 1..236, so that length differences inside and across classes are large); then end-to-end configs through a real server (incl. percent-encoded request URIs, which are matched as sent, and requests whose X-Forwarded-Host/Forwarded headers name another configured host) with one origin per location (which origin saw the request), locations whose only prefix is the catch-all /, and locations whose upstream has no server alive (the request fails, it is not handed to a less specific location). Non-trivial = lookup with >=2 matching named locations of different classes or no match; distinct = (shape tuple, names, query)."
+	r.Rule = "exhaustive: every ordered tuple of <=3 location shapes (host subset of {h1,h2} x prefix subset of {/a,/a/b,/b}) x every subset of the location names x 15 queries ({h1,h2,h3} x {/a/x,/a/b/x,/b,/c,/}); sampled tuples of 4; random larger universes (prefix lengths 1..236, so that length differences inside and across classes are large); then end-to-end configs (every second one applied while four clients keep sending requests) through a real server (incl. percent-encoded request URIs, which are matched as sent, and requests whose X-Forwarded-Host/Forwarded headers name another configured host) with one origin per location (which origin saw the request), locations whose only prefix is the catch-all /, and locations whose upstream has no server alive (the request fails, it is not handed to a less specific location). Non-trivial = lookup with >=2 matching named locations of different classes or no match; distinct = (shape tuple, names, query)."
 	r.Assume = []string{"ties inside one class are left to pike (any member accepted)"}
 	rnd := rand.New(rand.NewSource(r.Seed))
 	hostSets := subsets([]string{"h1", "h2"})
@@ -274,6 +277,11 @@ func c14EndToEnd(r *hx.Run, rnd *rand.Rand, shapes []locSpec) {
 		for i, l := range locs {
 			cfg.Locations = append(cfg.Locations, config.LocationConfig{Name: l.Name, Upstream: fmt.Sprintf("u%d", i), Hosts: l.Hosts, Prefixes: l.Prefixes})
 		}
+		// a realistic bulk of other locations (with rewrite rules to compile) that no server lists
+		for d := 0; d < 40; d++ {
+			cfg.Locations = append(cfg.Locations, config.LocationConfig{Name: fmt.Sprintf("decoy%d", d), Upstream: "u0", Hosts: []string{fmt.Sprintf("decoy%d.example", d)},
+				Prefixes: []string{fmt.Sprintf("/decoy/%d", d)}, Rewrites: []string{fmt.Sprintf("/decoy/%d/*/item/*:/v%d/$1/$2", d, d), "/legacy/*:/$1"}})
+		}
 		cfg.Servers = []config.ServerConfig{{Addr: addr, Locations: names, Cache: "c"}}
 		if names2 != nil {
 			// a second server of the same instance with its own list of locations
@@ -292,8 +300,14 @@ func c14EndToEnd(r *hx.Run, rnd *rand.Rand, shapes []locSpec) {
 	})
 	configs := r.Pick(40, 1500)
 	q := 0
+	prevNl := 1
+	var prevNames, prevNames2 []string
 	for i := 0; i < configs && !r.TooMany(); i++ {
 		nl := 1 + rnd.Intn(nOrig)
+		keepLists := i%2 == 0 && i > 0 // same server lists as before, other location definitions
+		if keepLists {
+			nl = prevNl
+		}
 		locs := make([]locSpec, nl)
 		var names []string
 		dead = map[int]bool{}
@@ -328,8 +342,37 @@ func c14EndToEnd(r *hx.Run, rnd *rand.Rand, shapes []locSpec) {
 		if len(names2) == 0 {
 			names2 = []string{locs[len(locs)-1].Name}
 		}
+		if keepLists {
+			names, names2 = prevNames, prevNames2
+		}
+		prevNl, prevNames, prevNames2 = nl, names, names2
 		w.Cfg = mk(locs, names)
-		w.apply(r)
+		if i%2 == 0 {
+			// requests keep arriving while the new configuration is applied (they are not judged: the server
+			// is between two configurations); afterwards routing follows the new configuration only
+			var stopTraffic atomic.Bool
+			var twg sync.WaitGroup
+			for g := 0; g < 4; g++ {
+				twg.Add(1)
+				go func(g int) {
+					defer twg.Done()
+					cl := hx.NewClient(nil)
+					for k := 0; !stopTraffic.Load(); k++ {
+						a := addr
+						if k%2 == 1 {
+							a = addr2
+						}
+						cl.Do(hx.Req{Method: "POST", Addr: a, Host: []string{"h1", "h2", "h3"}[k%3], URI: []string{"/a/x", "/a/b/x", "/b", "/"}[k%4], Body: []byte("x"), Timeout: 5 * time.Second})
+					}
+				}(g)
+			}
+			w.apply(r)
+			stopTraffic.Store(true)
+			twg.Wait()
+			r.Add("e2e_reloads_under_traffic", 1)
+		} else {
+			w.apply(r)
+		}
 		for _, h := range []string{"h1", "h2", "h3"} {
 			for _, u := range []string{"/a/x", "/a/b/x", "/b", "/c", "/", "/%61/x", "/a%2Fb/x", "/%62"} {
 				q++
